@@ -242,7 +242,7 @@ func runCheck(o checkOpts) int {
 		go func(i int, u *Unit) {
 			defer wg.Done()
 			defer func() { <-sem }()
-			results[i] = verifyUnit(ld, db, specs, u, id)
+			results[i] = verifyUnitRepair(ld, db, specs, u, id)
 		}(i, u)
 	}
 	wg.Wait()
